@@ -139,14 +139,15 @@ def sp_setup(ctx):
     from pyvc.engine import ClassRef
     kind = ["POSITIONAL_OR_KEYWORD", "KEYWORD_ONLY", "VAR_POSITIONAL", "VAR_KEYWORD"][ctx.choose(4, "param-kind")]
     dflt = ["no-default", "a-value", "None"][ctx.choose(3, "param-default")]
-    ann = ["int", "Optional[int]", "Complex", "untyped"][ctx.choose(4, "annotation")]
+    ann = ["int", "Optional[int]", "Complex", "untyped", "Optional[List[int]]"][ctx.choose(5, "annotation")]
     name = ["x", "_private"][ctx.choose(2, "name")]
     as_positional = ctx.choose(2, "as_positional") == 1
     fail_untyped = ctx.choose(2, "fail_untyped") == 1
     nested = [None, "grp"][ctx.choose(2, "nested_key")]
     linked = ctx.choose(2, "is-a-link-target") == 1
     default_val = z3.Int("signature-default")
-    annotation = {"int": ClassRef("int"), "Optional[int]": Rec("Optional[int]", attrs={"optional": True}), "Complex": Rec("Dict[str, int]", attrs={"optional": False}), "untyped": EMPTY}[ann]
+    annotation = {"int": ClassRef("int"), "Optional[int]": Rec("Optional[int]", attrs={"optional": True, "wrapped_is_a_class": True}), "Complex": Rec("Dict[str, int]", attrs={"optional": False}), "untyped": EMPTY,
+                  "Optional[List[int]]": Rec("Optional[List[int]]", attrs={"optional": True, "wrapped_is_a_class": False})}[ann]
     param = Rec("ParamData", attrs={"name": name, "kind": kind, "annotation": annotation, "default": {"no-default": EMPTY, "a-value": default_val, "None": None}[dflt],
                                     "doc": "help text", "origin": None, "component": Rec("fn"), "parent": None})
     added = []
@@ -154,7 +155,8 @@ def sp_setup(ctx):
     container = Rec("ArgumentGroup", methods={"add_argument": lambda c, s_, a, k: (added.append((a, dict(k))), action)[1]})
     optional_of = lambda x: Rec("Optional[...]", attrs={"of": x, "optional": True})  # noqa: E731
     calls = {
-        "is_optional": lambda c, a, k: isinstance(a[0], Rec) and a[0].attrs.get("optional", False),
+        # is_optional(annotation, ref_type=None): Union of exactly (T, None) and, when ref_type is given, T a subclass of it
+        "is_optional": lambda c, a, k: isinstance(a[0], Rec) and a[0].attrs.get("optional", False) and (len(a) < 2 or a[1] is None or a[0].attrs.get("wrapped_is_a_class", False)),
         "get_typehint_origin": lambda c, a, k: None, "get_parameter_origins": lambda c, a, k: "src", "is_factory_class": lambda c, a, k: False,
         "is_dataclass_like": lambda c, a, k: False, "is_subclass": lambda c, a, k: False, "register_pydantic_type": lambda c, a, k: None,
         "ActionTypeHint.is_subclass_typehint": lambda c, a, k: False, "ActionTypeHint.is_return_subclass_typehint": lambda c, a, k: False,
@@ -177,7 +179,7 @@ def sp_expect(d):
     if d["kind"] in ("VAR_POSITIONAL", "VAR_KEYWORD"):
         return None
     has_default = d["dflt"] != "no-default"
-    optional_ann = d["ann"] == "Optional[int]"
+    optional_ann = d["ann"].startswith("Optional[")
     required = not has_default and not optional_ann
     if d["ann"] == "untyped" and not d["fail_untyped"]:
         required = False
@@ -216,11 +218,14 @@ def sp_post(ctx, st, result):
         else:
             ctx.oblige("post", "no-default(or None)=>defaults-to-None" + tag, "default" in kw and kw["default"] is None)
     ctx.oblige("post", "the-key-is-nested_key.name-and-it-is-recorded-as-added" + tag, d["added_args"] == [dest])
-    if d["ann"] in ("int", "Optional[int]", "Complex"):
+    if d["ann"] != "untyped":
         t = kw.get("type")
+        if d["dflt"] != "a-value" and d["ann"] == "Optional[List[int]]":
+            # Optional[Optional[List[int]]] is the same type: either form is the annotation
+            t = t.attrs.get("of", t) if isinstance(t, Rec) else t
         if d["dflt"] == "None" and d["ann"] in ("int", "Complex"):
             ctx.oblige("post", "default-None-for-a-type-that-does-not-admit-None-widens-the-type-to-Optional" + tag, isinstance(t, Rec) and t.attrs.get("of") is d["annotation"])
-        elif not (d["linked"] and d["dflt"] == "no-default" and d["ann"] != "Optional[int]"):
+        elif not (d["linked"] and d["dflt"] == "no-default" and not d["ann"].startswith("Optional[")):
             ctx.oblige("post", "the-declared-type-is-the-annotation" + tag, t is d["annotation"] or (isinstance(t, ClassRef_) and isinstance(d["annotation"], ClassRef_) and t.name == d["annotation"].name))
 
 
@@ -235,3 +240,10 @@ def sp_raises(ctx, st, exc):
 
 UNITS.append(Unit("C12", "jsonargparse._signatures:SignatureArguments._add_signature_parameter", sp_setup, sp_post, sp_raises, max_paths=60000, expect_cover=("return", "raise:ValueError"),
                   trusted=["is_optional / is_dataclass_like / ActionTypeHint.is_subclass_typehint / prepare_add_argument: assumed typing-introspection contracts (A4)", "container.add_argument declares the argument as given"]))
+
+
+# handle_subcommands: auto_cli's nested components (dict of functions, classes with methods) are nested subcommands; the settings of the
+# chosen one reach the call only if every level is resolved with the caller's fail_no_subcommand (contract of contracts/c17.py)
+import dataclasses  # noqa: E402
+from contracts.c17 import UNITS as _C17_UNITS  # noqa: E402
+UNITS += [dataclasses.replace(u, prop="C12") for u in _C17_UNITS if u.target.endswith("handle_subcommands")]
